@@ -466,6 +466,14 @@ class App:
             flow = ref.hard_flow(e1) + ref.rate_stress(e1, e0, dt)
             f = ref.mises(Ee_new) - flow
             slack = 1e3 * core.EPS * (2 * ref.mu * (np.linalg.norm(Hn[i]) + np.linalg.norm(P) + 1e-3) + flow)
+            # resolution limit: the residual cannot be reduced below |d(residual)/d(eqps)| x ulp(eqps); with rate
+            # sensitivity that slope is S/(m dt r0) (de/(dt r0))^(1/m - 1), unbounded as the increment -> 0
+            de = max(e1 - e0, 0.0)
+            slope = 3 * ref.mu + abs(ref.hard_flow(e1 + 1e-8 * (abs(e1) + 1e-8)) - ref.hard_flow(e1)) / (1e-8 * (abs(e1) + 1e-8))
+            if rate and de > 0:
+                S_, m_, r0_ = self.mat['rate sensitivity stress'], self.mat['rate sensitivity exponent'], self.mat['reference plastic strain rate']
+                slope += S_ / (m_ * dt * r0_) * (de / (dt * r0_)) ** (1.0 / m_ - 1.0)
+            slack += 8 * np.spacing(max(e1, 1e-300)) * slope
             if e1 > e0:
                 nplastic += 1
             if not f <= 100 * TOL * Y0 + slack:
@@ -705,8 +713,10 @@ class App:
             # rounding of the stencils + truncation; reference scales: stress ~ E*strain, tangent ~ E
             strain = np.linalg.norm(Hs[i]) + hstep * 4
             s_scale = scaleE * strain + 1e-300
-            tol1 = 1e-8 * s_scale + 20 * core.EPS * wmag / hstep
-            tol2 = 1e-6 * scaleE + 200 * core.EPS * wmag / hstep**2
+            # measured baseline: stress 3e-13 (median) .. 4e-8 (soft materials, tiny strains) relative; tangent <= 1e-8;
+            # injected derivative errors are >= 1e-4 (stress) / 1e-2 (tangent)
+            tol1 = 1e-7 * s_scale + 200 * core.EPS * wmag / hstep
+            tol2 = 1e-5 * scaleE + 2000 * core.EPS * wmag / hstep**2
             sig = {'model': self.mat['model'], 'kin': self.mat.get('kinematics'), 'rate': 'rate sensitivity' in self.mat}
             ctx.require(abs(a1 - d1) <= tol1, 'C10', 'stress_vs_fd',
                         lambda: 'directional stress from autodiff %.12g vs finite difference of the energy %.12g (diff %.3g, tol %.3g)' % (a1, d1, a1 - d1, tol1), sig=sig)
